@@ -69,18 +69,15 @@ theorem exec_refines_spec_static (b : Beh) (m : Maps) (len : Nat) (hs : SlotsOK 
     obtain ⟨⟨hins, hz⟩, hrest⟩ := hwf
     have hrd := rdIns_eq m.d v down hd n.ins hins
     simp only [execStatic, specStatic, hrd]
-    have hl' : (wrOuts m.d v n.outs (callStatic b n (List.map down.rd n.ins) st).1).length = len := by
-      rw [wrOuts_length]; exact hl
-    have hd' := wrOuts_rel m.d hs.dinj len hs.dlt n.outs (callStatic b n (List.map down.rd n.ins) st).1 v down hl hd
-    have hu' := wrOuts_rel_other m.d m.u hs.disj n.outs (callStatic b n (List.map down.rd n.ins) st).1 v Env.empty hu
     split
     · rename_i hfail
       simp only [Bool.and_eq_true] at hfail
       have hf : n.fallible = true := hfail.1
       simp only [hf, Bool.not_true, Bool.false_or, Bool.and_eq_true, List.all_eq_true, Bool.or_eq_true,
         Bool.not_eq_true', List.contains_eq_mem, decide_eq_true_eq] at hz
-      refine ⟨rfl, ?_, ?_, by rw [zeroSlots_length]; exact hl'⟩
-      · apply zeroSlots_rel m.d hs.dinj len hs.dlt n.zero (laterOuts rest) _ _ hl' hd'
+      have hzl : (zeroSlots m.d v n.zero).length = len := by rw [zeroSlots_length]; exact hl
+      have hzd : Rel m.d (zeroSlots m.d v n.zero) (down.zero (laterOuts rest)) := by
+        apply zeroSlots_rel m.d hs.dinj len hs.dlt n.zero (laterOuts rest) _ _ hl hd
         intro t hsl
         constructor
         · intro hm
@@ -91,7 +88,13 @@ theorem exec_refines_spec_static (b : Beh) (m : Maps) (len : Nat) (hs : SlotsOK 
           cases hz.1 t hm with
           | inl h => rw [h] at hsl; cases hsl
           | inr h => exact h
-      · exact zeroSlots_rel_other m.d m.u hs.disj n.zero _ Env.empty hu'
-    · exact exec_refines_spec_static b m len hs rest hrest _ _ _ hl' hd' hu'
+      have hzu : Rel m.u (zeroSlots m.d v n.zero) Env.empty := zeroSlots_rel_other m.d m.u hs.disj n.zero _ Env.empty hu
+      refine ⟨rfl, ?_, ?_, by rw [wrOuts_length]; exact hzl⟩
+      · exact wrOuts_rel m.d hs.dinj len hs.dlt n.outs _ _ _ hzl hzd
+      · exact wrOuts_rel_other m.d m.u hs.disj n.outs _ _ Env.empty hzu
+    · exact exec_refines_spec_static b m len hs rest hrest _ _ _
+        (by rw [wrOuts_length]; exact hl)
+        (wrOuts_rel m.d hs.dinj len hs.dlt n.outs _ v down hl hd)
+        (wrOuts_rel_other m.d m.u hs.disj n.outs _ v Env.empty hu)
 
 end Nject
